@@ -64,6 +64,7 @@ func main() {
 		kinds := []idKind{
 			{"ed25519-consistent", keys.Ed(0), keys.Ed(0), keys.EdEncPEM(0), true},
 			{"ed25519-mismatched", keys.Ed(0), keys.Ed(1), keys.EdEncPEM(1), false},
+			{"ed25519-mismatched-same-tag", keys.EdTag(0), keys.EdTag(1), keys.EdTagEncPEMB(), false},
 			{"rsa-consistent", keys.RSA(0), keys.RSA(0), keys.RSAEncPEM(0), true},
 			{"rsa-mismatched", keys.RSA(0), keys.RSA(1), keys.RSAEncPEM(1), false},
 		}
